@@ -985,6 +985,23 @@ func (ev *Eval) callExpr(x *ECall) Val {
 		gk := "lock_" + key
 		ev.g.ghostSorts[gk] = "(Array Int Int)"
 		return Val{Term: "(select " + s.ghostGet(ev.mem, gk, "(Array Int Int)") + " " + v.lval.Ref + ")"}
+	case "bor8", "band8":
+		// bitwise or / and of two values in [0, 256) (exact bit decomposition; for untyped spec-level terms)
+		a, b := ev.eval(x.Args[0]), ev.eval(x.Args[1])
+		tk := token.OR
+		if x.Fn == "band8" {
+			tk = token.AND
+		}
+		return Val{Term: ev.fe.bitop(tk, ev.intTerm(a, b), ev.intTerm(b, a), 8, false)}
+	case "sections":
+		// sections(mu) -> how many critical sections on that mutex have been opened so far (ghost counter)
+		v := ev.eval(x.Args[0])
+		if v.lval == nil {
+			ev.fail("sections() of non-location")
+		}
+		gk := "lock_sect_" + lockKey(v.lval)
+		ev.g.ghostSorts[gk] = "(Array Int Int)"
+		return Val{Term: "(select " + s.ghostGet(ev.mem, gk, "(Array Int Int)") + " " + v.lval.Ref + ")"}
 	case "wide":
 		// bv -> unbounded int is not available (no bridge); only constants
 		ev.fail("wide() is not supported")
